@@ -190,3 +190,93 @@ def r32_2(ctx):
 def run(ctx):
     r32_1(ctx)
     r32_2(ctx)
+    r32_3(ctx)
+    r32_4(ctx)
+
+
+def r32_3(ctx):
+    """R32.3  relative include paths are resolved against the entry's own "directory": every FileSettings appended by importCompileCommands has passed
+    fsSetIncludePaths with a base path derived from that entry's directory on every path - or its include paths were copied from a lookup whose key
+    contains that directory (a memo keyed only on the option text hands the first entry's resolution to entries of other directories)."""
+    F = ctx.facts
+    ctx.rule('R32.3', 'the include paths of every compilation-database entry are resolved against that entry\'s directory')
+    f = F.one('ImportProject::importCompileCommands')
+    body = F.body(f)['body']
+    # locals derived from obj["directory"]
+    dirvars = set()
+    for x in walk(body):
+        if x.get('k') == 'VarDecl' and x.get('init') is not None and 'directory' in lits(x['init']):
+            dirvars.add(x['di'])
+    changed = True
+    while changed:
+        changed = False
+        for x in walk(body):
+            if x.get('k') == 'VarDecl' and x.get('init') is not None and x['di'] not in dirvars and \
+                    any(y.get('k') == 'DeclRefExpr' and y.get('di') in dirvars for y in walk(x['init'])):
+                dirvars.add(x['di'])
+                changed = True
+    if not dirvars:
+        raise AnalysisBroken('importCompileCommands: no local is derived from the "directory" member')
+    inits = {x['di']: x.get('init') for x in walk(body) if x.get('k') == 'VarDecl' and x.get('di')}
+
+    def mentions_dir(n):
+        return any(y.get('k') == 'DeclRefExpr' and y.get('di') in dirvars for y in walk(n or {}))
+
+    def is_push(x):
+        return x.get('k') == 'CXXMemberCallExpr' and (x.get('fn') or '').rsplit('::', 1)[-1] in ('push_back', 'emplace_back') and \
+            any(y.get('k') == 'MemberExpr' and y.get('n') == 'ImportProject::fileSettings' for y in walk(x['c'][0]))
+
+    def gen(x):
+        if x.get('k') == 'CallExpr' and (x.get('fn') or '').endswith('fsSetIncludePaths'):
+            a = call_args(x)
+            if len(a) >= 2 and mentions_dir(a[1]):
+                v = [y for y in walk(a[0]) if y.get('k') == 'DeclRefExpr' and y.get('dk') == 'Var']
+                return ['resolved:%s' % v[0]['di']] if v else ()
+        if x.get('k') in ('CXXOperatorCallExpr', 'BinaryOperator') and x.get('op') == '=':
+            ops = call_args(x) if x.get('k') == 'CXXOperatorCallExpr' else x['c']
+            if len(ops) == 2:
+                l = strip_all(ops[0])
+                if l.get('k') == 'MemberExpr' and l.get('n') == 'FileSettings::includePaths':
+                    # copied from a lookup result: the lookup key must contain the directory
+                    for y in walk(ops[1]):
+                        if y.get('k') == 'DeclRefExpr' and y.get('di') in inits and inits[y['di']] is not None:
+                            for z in walk(inits[y['di']]):
+                                if z.get('k') == 'CXXMemberCallExpr' and (z.get('fn') or '').rsplit('::', 1)[-1] in ('find', 'at', 'equal_range', 'lower_bound') and \
+                                        any(mentions_dir(a) for a in call_args(z)):
+                                    v = [w for w in walk(l) if w.get('k') == 'DeclRefExpr' and w.get('dk') == 'Var']
+                                    return ['resolved:%s' % v[0]['di']] if v else ()
+        return ()
+    res = paths.Must(gen=gen, observe=is_push).run(body)
+    n = 0
+    for i, s in res.at.items():
+        node = res.at_node[i]
+        a = call_args(node)
+        v = [y for y in walk(a[0]) if y.get('k') == 'DeclRefExpr' and y.get('dk') == 'Var'] if a else []
+        n += 1
+        ok = bool(v) and ('resolved:%s' % v[0]['di']) in s
+        ctx.ob('R32.3', 'entry-include-base#%d' % n, ok, 'the include paths of the entry appended at line %s were resolved against the entry\'s directory' % node['l'] if ok else
+               ('ImportProject::importCompileCommands appends an entry at line %s whose include paths were not, on every path, resolved by fsSetIncludePaths against the entry\'s own '
+                '"directory" (nor copied from a lookup keyed on it): a relative -I of this entry is interpreted relative to another entry\'s directory' % node['l']),
+               '%s:%s' % (f['file'], node['l']))
+    ctx.floor('R32.3 appends to the project', n, 1)
+
+
+def r32_4(ctx):
+    """R32.4  "and no others": an option spelling the parser accepts must not also be the beginning of an ordinary argument of a GCC-style command line.
+    A spelling that starts with '/' is the beginning of every absolute POSIX path ("/Users/me/x.c" -> -U "sers/me/x.c", "-o /Debug/x.o" -> -D "ebug/x.o"), so a
+    branch that accepts it without a test of the compiler flavour adds definitions the command never specified."""
+    F = ctx.facts
+    ctx.rule('R32.4', 'no accepted option spelling is a prefix of an absolute path (unless the branch tests the compiler flavour)')
+    parser = F.one('ImportProject::parseArgs')
+    pbody = F.body(parser)['body']
+    n = 0
+    for x in walk(pbody):
+        if x.get('k') == 'IfStmt' and x.get('cond') is not None:
+            for lit in sorted(l for l in lits(x['cond']) if isinstance(l, str) and len(l) >= 2 and l[0] in '-/'):
+                n += 1
+                ok = not lit.startswith('/')
+                ctx.ob('R32.4', 'option-spelling:%s' % lit, ok, ('option spelling %s cannot begin a path argument' % lit) if ok else
+                       ('ImportProject::parseArgs accepts the spelling "%s" (line %s) for every command line: on a GCC-style command an absolute path that starts with it is parsed as that '
+                        'option, so the entry is analysed with a definition / undefinition / include path its options never specified' % (lit, x['l'])),
+                       '%s:%s' % (parser['file'], x['l']))
+    ctx.floor('R32.4 option spellings', n, 8)
